@@ -108,31 +108,31 @@ theorem build_lookups_ok (i : Input) (al : AList) :
 
 /-! ### the classes of `build` on a well-formed anchor list -/
 theorem clsOf_eq {i : Input} {al : AList} (w : ALwf i al) :
-    clsOf i al = (groupNames (meOf i al)).map (fun n => ("MC" ++ n, (groupOf (meOf i al) n).map recOf)) := by
-  unfold clsOf; rw [w.pre]; exact congrArg ClsState.classes (makeClasses_meOf w)
+    clsOf i al = (groupNames (meOf i al)).map (fun n => (cnOf i al n, (groupOf (meOf i al) n).map recOf)) := by
+  unfold clsOf; exact congrArg ClsState.classes (makeClasses_meOf w).1
 
 theorem kmOf_eq {i : Input} {al : AList} (w : ALwf i al) :
-    kmOf i al = (groupNames (meOf i al)).map (fun n => (keyOfMarkName n, "MC" ++ n)) := by
-  unfold kmOf; rw [w.pre]; exact congrArg ClsState.keyMap (makeClasses_meOf w)
+    kmOf i al = (groupNames (meOf i al)).map (fun n => (keyOfMarkName n, cnOf i al n)) := by
+  unfold kmOf; exact congrArg ClsState.keyMap (makeClasses_meOf w).1
 
 /-- a member of a mark class is a mark anchor of that glyph whose name gives the class name -/
 theorem clsOf_mem {i : Input} {al : AList} (w : ALwf i al) {cls : String × List MarkRec} (hc : cls ∈ clsOf i al)
     {r : MarkRec} (hr : r ∈ cls.2) :
-    ∃ a, AnchorIn al r.glyph a ∧ a.isMark = true ∧ markOK i r.glyph = true ∧ cls.1 = "MC" ++ a.name ∧
+    ∃ a, AnchorIn al r.glyph a ∧ a.isMark = true ∧ markOK i r.glyph = true ∧ cls.1 = cnOf i al a.name ∧ a.name ∈ groupNames (meOf i al) ∧
       r.x = otRound a.x ∧ r.y = otRound a.y ∧ NAShape a := by
   rw [clsOf_eq w] at hc
-  obtain ⟨n, _, rfl⟩ := mem_map.mp hc
+  obtain ⟨n, hnmem, rfl⟩ := mem_map.mp hc
   obtain ⟨gm, hgm, rfl⟩ := mem_map.mp hr
   obtain ⟨e, he, he1, hgm2, hgmn⟩ := mem_groupOf hgm
   obtain ⟨hok, _, as, has, hall, _⟩ := mem_meOf w he
   obtain ⟨h1, h2, h3⟩ := hall gm.2 hgm2
-  refine ⟨gm.2, ⟨as, ?_, h1⟩, h2, ?_, by rw [hgmn], rfl, rfl, shape_of_mem_markNames w has h1 h3⟩
+  refine ⟨gm.2, ⟨as, ?_, h1⟩, h2, ?_, by rw [hgmn], by rw [hgmn]; exact hnmem, rfl, rfl, shape_of_mem_markNames w has h1 h3⟩
   · show (gm.1, as) ∈ al; rw [← he1]; exact has
   · show markOK i gm.1 = true; rw [← he1]; exact hok
 
 /-- the class a base-side anchor refers to is named after `_key` -/
 theorem classOf_kmOf {i : Input} {al : AList} (w : ALwf i al) {a : NA} {cn : String} (h : classOf (kmOf i al) a = some cn) :
-    a.isMark = false ∧ a.key ≠ "" ∧ ∃ n ∈ groupNames (meOf i al), keyOfMarkName n = a.key ∧ cn = "MC" ++ n := by
+    a.isMark = false ∧ a.key ≠ "" ∧ ∃ n ∈ groupNames (meOf i al), keyOfMarkName n = a.key ∧ cn = cnOf i al n := by
   unfold classOf at h
   split at h
   · simp at h
